@@ -493,10 +493,50 @@ def prob2():
     return p
 
 
+def prob1p():
+    """single objective with plateaus: many distinct decision vectors share one objective value"""
+    from platypus import Problem, Real
+    p = Problem(2, 1)
+    p.types[:] = Real(-1, 1)
+    p.function = lambda x: [math.floor(3 * abs(x[0])) + math.floor(3 * abs(x[1]))]
+    return p
+
+
+def prob2p():
+    """two objectives snapped to a coarse lattice: objective-space duplicates and ties in every front"""
+    from platypus import Problem, Real
+    p = Problem(3, 2)
+    p.types[:] = Real(0, 1)
+
+    def f(x):
+        a = math.floor(x[0] * 6.0) / 6.0
+        g = 1 + math.floor(3 * x[1]) / 3.0
+        return [a, g * (1 - math.sqrt(a / g))]
+    p.function = f
+    return p
+
+
+def prob3p():
+    """three objectives (DTLZ2-like sphere) on snapped variables"""
+    from platypus import Problem, Real
+    p = Problem(4, 3)
+    p.types[:] = Real(0, 1)
+
+    def f(x):
+        a, b, g = math.floor(4 * x[0]) / 4.0, math.floor(4 * x[1]) / 4.0, 1 + math.floor(2 * x[2]) / 2.0
+        return [g * math.cos(a * math.pi / 2) * math.cos(b * math.pi / 2), g * math.cos(a * math.pi / 2) * math.sin(b * math.pi / 2), g * math.sin(a * math.pi / 2)]
+    p.function = f
+    return p
+
+
 def make_algorithm(spec):
     import platypus as P
     from platypus.problems import DTLZ2
     a, n, m = spec["alg"], spec["size"], spec["aux"]
+    if spec.get("plateau"):
+        prob1, prob2 = prob1p, prob2p
+    else:
+        prob1, prob2 = globals()["prob1"], globals()["prob2"]
     if a == "GA":
         return P.GeneticAlgorithm(prob1(), population_size=n, offspring_size=m)
     if a == "ES":
@@ -504,7 +544,7 @@ def make_algorithm(spec):
     if a == "NSGAII":
         return P.NSGAII(prob2(), population_size=n)
     if a == "NSGAIII":
-        return P.NSGAIII(DTLZ2(3), divisions_outer=m)
+        return P.NSGAIII(prob3p() if spec.get("plateau") else DTLZ2(3), divisions_outer=m)
     if a == "SPEA2":
         return P.SPEA2(prob2(), population_size=n)
     if a == "GDE3":
@@ -556,6 +596,8 @@ def trace_specs(ctx):
             n = rng.randrange(4 if a in ("GDE3",) else (2 if a in ("NSGAII", "SPEA2", "IBEA", "EpsMOEA", "MOEAD") else 1), 14)
             extra.append({"alg": a, "size": n, "aux": rng.randrange(1, 12), "div": rng.randrange(1, 5), "random_config": True})
         specs += extra
+    # every configuration also on a problem with plateaus (duplicate objective vectors stress the truncation ties)
+    specs += [dict(s, plateau=True) for s in specs]
     for s in specs:
         s["seed"] = rng.randrange(1 << 30)
         s["steps"] = (60 if s["alg"] == "PAES" else 14) if not ctx.thorough else (150 if s["alg"] == "PAES" else 25)
@@ -727,7 +769,7 @@ def run(ctx):
             continue
         ctx.count()
         tdist[spec["alg"]] += 1
-        ctx.mark("trace-%s-%d-%d" % (spec["alg"], spec["size"], spec["aux"]))
+        ctx.mark("trace-%s-%d-%d-%s" % (spec["alg"], spec["size"], spec["aux"], spec.get("plateau", False)))
         seen = set()
         for key, msg in viol:
             if key not in seen:
